@@ -630,19 +630,21 @@ class C12(Spec):
     explanation = "The format keyword function is proved to yield nothing without a checker and, with one, exactly one error carrying the FormatError's cause iff check raises FormatError; FormatChecker.check is proved against its four-case contract (unknown name, truthy, falsy, listed exception, unlisted exception propagates), conforms against check; every registered built-in function is proved to return True for any non-string instance before consulting anything."
 
     def tasks(self, root, tier):
-        from contracts import tasks_format
-        return tasks_format.format_tasks(root, _tmo(tier))
+        from contracts import tasks_format, tasks_derive
+        # "listed in a checker's raises" means: in the entry the LAST registration under that name stored - the registration
+        # contract (checks / cls_checks store exactly (func, raises) in the receiver's own registry) is part of this check
+        return tasks_format.format_tasks(root, _tmo(tier)) + [t for t in tasks_derive.derive_tasks(root, _tmo(tier)) if t.which in ("fc_checks", "fc_init")]
 
     def select(self, ob, r):
         return True
 
     def failure_kinds(self):
-        return ("F", "S")
+        return ("F", "S", "D")
 
     def standins(self, root, tier):
         from pyvc import driver
         r = driver.rt_call("pyvc.rt_fmt", {"cmd": "custom", "root": root}, root, timeout=3000)
-        return [{"name": "custom-checkers", "scope": "14 checker behaviours (12 return values, listed and unlisted exception) x 11 instances of every JSON type x 4 drafts, through conforms and validation with/without checker and an unknown format name",
+        return [{"name": "custom-checkers", "scope": "14 checker behaviours (12 return values, listed and unlisted exception) x 11 instances of every JSON type x 4 drafts, through conforms and validation with/without checker and an unknown format name; sequences of two registrations under one name (a new name and every stock name with listed exceptions; second registration without raises / raises=() / another class) x the function raising the formerly listed, the newly listed or ValueError, through conforms, check and validation",
                  "cases": r["tried"], "failures": r["failures"], "replay_kind": "fmt", "label": "bounded (not counted as proof)"}]
 
 
